@@ -1,2 +1,101 @@
-(** C03 - placeholder *)
-From VG Require Import Model.Serve.
+(** C03 - Client gets a valid response in its own protocol with exactly one outcome.
+    Statements only; proofs in Proofs/ResponseProofs.v.
+
+    [serve_response cx h s] runs the handler's script [s] (header changes, WriteHeader, Write,
+    Flush, and request-side failures reported at any point: [BReadFault]) against the
+    responseWriter and closes it.  [c_out] is the log of what was done to the client's
+    http.ResponseWriter: [DHead] WriteHeader, [DWrite] body bytes, [DFlush], [DEnd] the end
+    rendered into the body (error body, end-stream frame, trailer frame), [DTrailers] the end
+    rendered as HTTP trailers, [DDone] the (ghost) mark that the end has been dealt with. *)
+From VG Require Import Model.Bytes Model.Headers Model.RespMeta Model.Response Model.Request Model.Serve.
+From VG Require Import Proofs.ResponseProofs.
+Open Scope Z_scope.
+
+(** Exactly one head, first; then body writes and flushes; then exactly one end, carried by at
+    most one terminal event; after it nothing but flushes - for every handler behaviour and every
+    placement of request-side failures, whenever serving does not panic. *)
+Theorem C03_one_head_one_end_nothing_after : forall cx h s r wr res,
+  serve_response cx h s = (r, wr, res) -> res <> WPanic ->
+  exists code hd eh body tail fl,
+    c_out (r_core r) = DHead code hd eh :: body ++ tail ++ DDone :: fl /\
+    forallb (fun e => negb (is_head e) && negb (is_term e) && negb (is_done e)) body = true /\
+    (tail = [] \/ exists t, is_term t = true /\ tail = [t]) /\ forallb is_flush fl = true.
+Proof. exact finished_response_shape. Qed.
+Print Assumptions C03_one_head_one_end_nothing_after.
+
+(** The same discipline holds at every moment while the handler is still running (also when
+    serving later panics): the log is always accepted by the automaton [orun], in the state the
+    writer's own flags say. *)
+Theorem C03_discipline_throughout : forall cx s h r wr,
+  run_script cx s (rw_init h) [] = (r, wr) ->
+  orun S0 (c_out (r_core r)) = Some (st_of (r_core r)) /\
+  (c_end_written (r_core r) = true -> c_flushed (r_core r) = true) /\
+  c_err (r_core r) = c_end_written (r_core r).
+Proof.
+  intros cx s h r wr H. destruct (run_script_inv cx s _ _ _ _ (RwInv_init cx h) H) as ((Hr & Hf & _ & He) & _). auto.
+Qed.
+Print Assumptions C03_discipline_throughout.
+
+Theorem C03_accepted_logs : forall l s, orun S0 l = Some s ->
+  l = [] \/
+  exists code h eh body tail, l = DHead code h eh :: body ++ tail /\
+    forallb (fun e => negb (is_head e) && negb (is_term e) && negb (is_done e)) body = true /\
+    (tail = [] \/
+     (exists t, is_term t = true /\ tail = [t]) \/
+     (exists fl, tail = DDone :: fl /\ forallb is_flush fl = true) \/
+     (exists t fl, is_term t = true /\ tail = t :: DDone :: fl /\ forallb is_flush fl = true)).
+Proof. exact orun_shape. Qed.
+Print Assumptions C03_accepted_logs.
+
+(** Once the end is written, nothing the handler does reaches the client any more: Write fails
+    and WriteHeader is ignored. *)
+Theorem C03_write_after_end_refused : forall cx d r,
+  r_headers_written r = true -> c_err (r_core r) = true -> rw_write cx d r = (r, WFail).
+Proof. intros cx d r Hw He. unfold rw_write. rewrite Hw, He. reflexivity. Qed.
+Print Assumptions C03_write_after_end_refused.
+
+(** Content type and status the client's protocol prescribes. *)
+Theorem C03_head_of_streaming_protocols : forall c m h,
+  match c with CGrpc | CGrpcWeb | CConnectStream => True | _ => False end -> rm_end m = None ->
+  ho_status (add_response_headers c m h) = 200 /\
+  hget k_content_type (ho_hdrs (add_response_headers c m h)) =
+    (match c with CGrpc => s2b "application/grpc+" | CGrpcWeb => s2b "application/grpc-web+" | _ => s2b "application/connect+" end) ++ rm_codec m.
+Proof. exact head_streaming. Qed.
+Print Assumptions C03_head_of_streaming_protocols.
+
+Theorem C03_head_of_connect_unary : forall c m h,
+  match c with CConnectPost | CConnectGet => True | _ => False end ->
+  let ho := add_response_headers c m h in
+  match rm_end m with
+  | Some e => match re_err e with
+              | Some err => ho_status ho = rpc_http_status (Some err) /\ hget k_content_type (ho_hdrs ho) = s2b "application/json"
+              | None => ho_status ho = 200 /\ hget k_content_type (ho_hdrs ho) = s2b "application/" ++ rm_codec m
+              end
+  | None => ho_status ho = 200 /\ hget k_content_type (ho_hdrs ho) = s2b "application/" ++ rm_codec m
+  end.
+Proof. exact head_connect_unary. Qed.
+Print Assumptions C03_head_of_connect_unary.
+
+(** A buffered (unary) success body is sent with a Content-Length equal to its length. *)
+Theorem C03_content_length : forall cx c m b,
+  c_flushed c = false -> c_meta c = Some m -> c_buf c = Some b -> has_err m = false ->
+  exists st hd eh rest,
+    c_out (flush_headers cx c) = c_out c ++ DHead st hd eh :: DWrite b :: rest /\
+    hget (s2b "Content-Length") hd = format_nat (length b).
+Proof. exact buffered_content_length. Qed.
+Print Assumptions C03_content_length.
+
+(** Non-vacuity: a gRPC-Web client of a gRPC backend; the request side fails after the first
+    response message.  One head, the message, the error as the only end, nothing after. *)
+Definition ex_cx : wctx :=
+  mkWctx CGrpcWeb SGrpc (Some WebC) (Some GrpcS) 1000 [s2b "gzip"] (s2b "proto") (s2b "proto") true false
+         (mkOr (fun b => Some b) (fun b => Some b) (fun b => Some b) (fun b => b) (fun _ => false))
+         (mkEor (fun _ => None) (fun _ => None) (fun _ => None) (fun _ _ _ => None)) (fun _ => 10).
+Definition ex_script : list baction :=
+  [BHset (s2b "Content-Type") (s2b "application/grpc+proto"); BStatus 200;
+   BWrite (h "0000000003616263"); BReadFault EInvalidArgument; BWrite (h "0000000003646566")].
+Example C03_ex :
+  let '(r, wr, res) := serve_response ex_cx [] ex_script in
+  map (fun e => match e with DHead _ _ _ => 1 | DWrite _ => 2 | DFlush => 3 | DEnd _ => 4 | DTrailers _ => 5 | DDone => 6 end) (c_out (r_core r))
+  = [1; 2; 2; 3; 4; 6; 3] /\ wr = [WOk; WFail] /\ res = WOk.
+Proof. vm_compute. repeat split; reflexivity. Qed.
